@@ -57,6 +57,8 @@ type HostLine struct {
 	// edf
 	E       EdfCase `json:"e"`
 	Len     int     `json:"len"`
+	Hash    string  `json:"hash"`    // of the bytes that were injected / decoded
+	Changed bool    `json:"changed"` // the bytes differ from the honest ones
 	Outcome string  `json:"outcome"` // value | error | panic | hang
 	Stable  bool    `json:"stable"`  // a decoded value re-encodes and decodes to an equal value
 }
@@ -177,6 +179,7 @@ func (r *HostRunner) RunLive(c *LiveCase) error {
 	x := uint32(c.ID)*2654435761 + uint32(c.Arg)
 	rnd := func() byte { x = x*1664525 + 1013904223; return byte(x >> 24) }
 	m := raw
+	orig := append([]byte{}, raw...)
 	switch c.Mut {
 	case "len":
 		binary.BigEndian.PutUint32(m[2:6], uint32(c.Arg))
@@ -240,6 +243,8 @@ func (r *HostRunner) RunLive(c *LiveCase) error {
 	t0 := time.Now()
 	links[0].InjectUp(m)
 	line.Injected = len(m)
+	line.Hash = sum(m)
+	line.Changed = string(m) != string(orig)
 	if len(m) > 7 {
 		line.IType = int(m[7])
 	}
@@ -370,7 +375,7 @@ func (r *HostRunner) RunEdf(c *EdfCase) error {
 		m = append(m[:at:at], append(append([]byte{}, enc[at:]...), enc[at:]...)...)
 	case "none":
 	}
-	line := HostLine{P: c.ID, Ev: "edf", E: *c, Len: len(m)}
+	line := HostLine{P: c.ID, Ev: "edf", E: *c, Len: len(m), Hash: sum(m), Changed: string(m) != string(enc)}
 	var ms0, ms1 runtime.MemStats
 	runtime.ReadMemStats(&ms0)
 	type res struct {
